@@ -14,8 +14,8 @@ from .c10 import spec as search_spec
 
 ID = "C01"
 THREADS = True       # part of the cases run concurrently in threads of one interpreter (the schedule dimension)
-MODULES = ["TWV.Tie.Search", "TWV.Properties.C01", "TWV.Tie.Vector", "TWV.Tie.MatchFlow", "TWV.Tie.WeaverStep"]
-TRANSLATORS = ["t5_search", "t3_vector", "t11_match", "t9_weaver"]
+MODULES = ["TWV.Tie.Search", "TWV.Properties.C01", "TWV.Tie.Vector", "TWV.Tie.MatchFlow", "TWV.Tie.WeaverStep", "TWV.Tie.SmoothGlue"]
+TRANSLATORS = ["t5_search", "t3_vector", "t11_match", "t9_weaver", "t15_smoothglue"]
 RULE = ("random structured cases of integral_matching_reference_stretch: n in 3..60 (thorough ..400), uniform / lattice-random "
         "spacing, fixed samples chosen first and reference positions placed on-grid or off-grid inside the cell that the "
         "requested search strategy maps to them, 2x2 integration rules, alpha in {1,2,3} (computed by the model) and "
